@@ -254,11 +254,13 @@ impl<'a> Parser<'a> {
             return Err(ParseErr::Malformed(self.pos, "string length not followed by ':'"));
         }
         self.pos += 1;
+        // a declared length beyond the rest of the input is malformed whatever its magnitude (no representability
+        // question arises: the string simply is not there)
         let mut len: u128 = 0;
         for d in digits {
             len = len * 10 + (*d - b'0') as u128;
-            if len > u64::MAX as u128 {
-                return Err(ParseErr::OutOfDomain(start));
+            if len > (self.data.len() as u128) {
+                return Err(ParseErr::Malformed(start, "string longer than remaining input"));
             }
         }
         if len > (self.data.len() - self.pos) as u128 {
